@@ -537,7 +537,7 @@ def instantiate(ground, qfacts, registry, rounds=2, hints=(), max_insts=6000, us
                     singles[m.get_id()] = m
         # theory hooks (e.g. row-major addressing facts of vf/flat.py): per occurrence and per pair of occurrences
         for hook in getattr(registry, 'hooks', []):
-            new.extend(hook(apps, seen_spec, seen_pairs))
+            new.extend(hook(apps, seen_spec, seen_pairs, singles))
         # spec functions
         for name, sp in registry.specs.items():
             for aid, app in apps.get(name, {}).items():
